@@ -182,15 +182,16 @@ theorem mem_cyclicEdges (vs : List Pt) (e : Pt × Pt) (h : e ∈ cyclicEdges vs)
 
 /-! ## direction independence -/
 
-/-- **Direction independence of the even-odd rule**: off the boundary, matplotlib's crossing test
-gives the same answer after exchanging the two coordinates (i.e. shooting the ray along `+y`). -/
-theorem evenOdd_swap (vs : List Pt) (p : Pt) (h : onPolyBoundary vs p = false) :
-    evenOdd (vs.map Pt.swap) p.swap = evenOdd vs p := by
+/-- Parity of the crossings of the `+y` ray is the even-odd test of the transposed polygon. -/
+theorem evenOdd_swap_eq_parV (vs : List Pt) (p : Pt) :
+    evenOdd (vs.map Pt.swap) p.swap = xorAll ((cyclicEdges vs).map fun e => crossV e.1 e.2 p) := by
   unfold evenOdd
   rw [cyclicEdges_map, List.map_map]
-  have hV : (List.map ((fun e : Pt × Pt => crossH e.1 e.2 p.swap) ∘ fun e => (e.1.swap, e.2.swap)) (cyclicEdges vs)) =
-      (cyclicEdges vs).map fun e => crossV e.1 e.2 p := rfl
-  rw [hV]
+  rfl
+
+/-- Off the boundary the `+x` ray and the `+y` ray cross the polygon with the same parity. -/
+theorem evenOdd_eq_parV (vs : List Pt) (p : Pt) (h : onPolyBoundary vs p = false) :
+    evenOdd vs p = xorAll ((cyclicEdges vs).map fun e => crossV e.1 e.2 p) := by
   have hpar := cyclic_parity (inQ p) vs
   have hq : ((cyclicEdges vs).map fun e => inQ p e.1 != inQ p e.2) =
       (cyclicEdges vs).map fun e => (crossH e.1 e.2 p != crossV e.1 e.2 p) := by
@@ -202,9 +203,16 @@ theorem evenOdd_swap (vs : List Pt) (p : Pt) (h : onPolyBoundary vs p = false) :
       simpa using h e he
     exact (cross_quadrant e.1 e.2 p hoff).symm
   rw [hq, xorAll_map_bne] at hpar
+  unfold evenOdd
   generalize xorAll ((cyclicEdges vs).map fun e => crossH e.1 e.2 p) = x at hpar ⊢
   generalize xorAll ((cyclicEdges vs).map fun e => crossV e.1 e.2 p) = y at hpar ⊢
   cases x <;> cases y <;> simp_all
+
+/-- **Direction independence of the even-odd rule**: off the boundary, matplotlib's crossing test
+gives the same answer after exchanging the two coordinates (i.e. shooting the ray along `+y`). -/
+theorem evenOdd_swap (vs : List Pt) (p : Pt) (h : onPolyBoundary vs p = false) :
+    evenOdd (vs.map Pt.swap) p.swap = evenOdd vs p := by
+  rw [evenOdd_swap_eq_parV, evenOdd_eq_parV vs p h]
 
 /-! ## the bounding-box prefilter is redundant -/
 
